@@ -1,6 +1,7 @@
 package main
 
 import (
+	"archive/zip"
 	"bytes"
 	"context"
 	"encoding/json"
@@ -13,6 +14,7 @@ import (
 	"net/textproto"
 	"net/url"
 	"strings"
+	"unicode/utf16"
 
 	"github.com/getkin/kin-openapi/openapi3"
 	"github.com/getkin/kin-openapi/openapi3filter"
@@ -49,6 +51,52 @@ type c06Case struct {
 	Spell     string  `json:"spell"`     // form: "pct" = every byte outside [A-Za-z0-9] percent-escaped (a space is %20)
 	Boundary  string  `json:"boundary"`  // multipart: default | quoted | short
 	Kind      string  `json:"kind"`      // malformed: which way the text fails to be an encoding
+	TextForm  string  `json:"textForm"`  // json: pretty | escaped; yaml: flow -- another spelling of the same value
+	MtName    string  `json:"mtName"`    // json / yaml: another media type name the library registers the decoder under
+}
+
+// c06JSONEscaped renders a tagged value as JSON with every character of every string and key written as a \uXXXX escape.
+func c06JSONEscaped(t any, sb *strings.Builder) {
+	esc := func(x string) {
+		sb.WriteByte('"')
+		for _, r := range x {
+			if r > 0xFFFF {
+				r1, r2 := utf16.EncodeRune(r)
+				fmt.Fprintf(sb, "\\u%04x\\u%04x", r1, r2)
+			} else {
+				fmt.Fprintf(sb, "\\u%04x", r)
+			}
+		}
+		sb.WriteByte('"')
+	}
+	m := t.(map[string]any)
+	switch m["t"] {
+	case "str":
+		esc(csToString(m["cs"]))
+	case "arr":
+		sb.WriteByte('[')
+		for i, it := range asSlice(m["a"]) {
+			if i > 0 {
+				sb.WriteByte(',')
+			}
+			c06JSONEscaped(it, sb)
+		}
+		sb.WriteByte(']')
+	case "obj":
+		sb.WriteByte('{')
+		vs := asSlice(m["v"])
+		for i, k := range asSlice(m["k"]) {
+			if i > 0 {
+				sb.WriteByte(',')
+			}
+			esc(k.(string))
+			sb.WriteByte(':')
+			c06JSONEscaped(vs[i], sb)
+		}
+		sb.WriteByte('}')
+	default:
+		sb.WriteString(taggedToJSONText(t))
+	}
 }
 
 // c06YAML renders a tagged value as block-style YAML (strings that a YAML reader would take for something else are double-quoted).
@@ -262,15 +310,36 @@ func c06Run(c *Case) []any {
 		}
 		switch tc.Family {
 		case "json":
-			content[declKey("application/json")] = map[string]any{"schema": schema}
-			ct = hdrOf("application/json")
+			name := "application/json"
+			if tc.MtName != "" {
+				name = tc.MtName
+			}
+			content[declKey(name)] = map[string]any{"schema": schema}
+			ct = hdrOf(name)
 			body = []byte(taggedToJSONText(tc.V))
+			switch tc.TextForm {
+			case "pretty":
+				var ib bytes.Buffer
+				json.Indent(&ib, body, " ", "\t")
+				body = []byte(" \r\n\t" + ib.String() + "\n \n")
+			case "escaped":
+				var sb strings.Builder
+				c06JSONEscaped(tc.V, &sb)
+				body = []byte(sb.String())
+			}
 		case "yaml":
-			content[declKey("application/yaml")] = map[string]any{"schema": schema}
-			ct = hdrOf("application/yaml")
+			name := "application/yaml"
+			if tc.MtName != "" {
+				name = tc.MtName
+			}
+			content[declKey(name)] = map[string]any{"schema": schema}
+			ct = hdrOf(name)
 			var sb strings.Builder
 			c06YAML(tc.V, "", &sb, true)
 			body = []byte(sb.String())
+			if tc.TextForm == "flow" {
+				body = []byte(taggedToJSONText(tc.V) + "\n") // a JSON text is a YAML flow collection
+			}
 		case "form":
 			mt := map[string]any{"schema": schema}
 			delim := map[string]string{"pipe": "|", "space": " "}[tc.Enc]
@@ -279,6 +348,8 @@ func c06Run(c *Case) []any {
 			} else if delim != "" {
 				e := map[string]any{"style": tc.Enc + "Delimited", "explode": false}
 				mt["encoding"] = map[string]any{"l": e, "ls": e}
+			} else if tc.Enc == "deep" {
+				mt["encoding"] = map[string]any{"o": map[string]any{"style": "deepObject", "explode": true}}
 			}
 			content[declKey("application/x-www-form-urlencoded")] = mt
 			ct = hdrOf("application/x-www-form-urlencoded")
@@ -286,6 +357,14 @@ func c06Run(c *Case) []any {
 			var pairs []string // spelling "pct"
 			ks, vs := fields()
 			for i, k := range ks {
+				if fv := asSlice(v["v"])[i].(map[string]any); fv["t"] == "obj" {
+					// an object-valued property in deepObject style: k[sub]=text
+					subv := asSlice(fv["v"])
+					for j, sub := range asSlice(fv["k"]) {
+						q.Add(k+"["+sub.(string)+"]", primText(subv[j]))
+					}
+					continue
+				}
 				if tc.Enc == "lNonExplode" && k == "l" {
 					q.Set(k, strings.Join(vs[i], ","))
 				} else if delim != "" && (k == "l" || k == "ls") {
@@ -360,6 +439,18 @@ func c06Run(c *Case) []any {
 			content[declKey("text/plain")] = map[string]any{"schema": ts}
 			ct = hdrOf("text/plain")
 			body = []byte(csToString(v["cs"]))
+		case "zip":
+			// the library's opt-in decoder for archives, registered by the caller for application/zip; the body is an archive of one file
+			openapi3filter.RegisterBodyDecoder("application/zip", openapi3filter.ZipFileBodyDecoder)
+			defer openapi3filter.UnregisterBodyDecoder("application/zip")
+			content["application/zip"] = map[string]any{"schema": absSchemaToOpenAPI(tc.Sch)}
+			ct = "application/zip"
+			var zb bytes.Buffer
+			zw := zip.NewWriter(&zb)
+			fw, _ := zw.Create("a.txt")
+			fw.Write([]byte(csToString(v["cs"])))
+			zw.Close()
+			body = zb.Bytes()
 		case "octet":
 			content[declKey("application/octet-stream")] = map[string]any{"schema": absSchemaToOpenAPI(tc.Sch)}
 			ct = hdrOf("application/octet-stream")
